@@ -118,7 +118,7 @@ fn check_nopanic(s: &str, acc: &mut Acc) {
 
 pub fn run(ctx: &Ctx) -> i32 {
     let names: Vec<String> = strings(&["a", "1", "-", "."], 1, 3).into_iter().filter(|s| !s.starts_with('-')).collect();
-    let epochs = ["", "0", "1", "12"];
+    let epochs = ["", "0", "1", "12", "00", "01", "2147483647", "2147483648", "4294967295"];
     let vers = strings(&["1", "a", "."], 1, 2);
     let rels = strings(&["1", "a", "."], 1, 2);
     let archs = ["x", "noarch", "x86_64"];
